@@ -335,6 +335,19 @@ func ruleBookkeeping(c *Ctx, t *tables) {
 		switch x := n.(type) {
 		case *ast.AssignStmt:
 			if len(x.Lhs) == 1 && len(x.Rhs) == 1 {
+				// set[token.K] = true on a set made before (a map literal written as assignments)
+				if ix, ok := x.Lhs[0].(*ast.IndexExpr); ok {
+					if sid, ok := ix.X.(*ast.Ident); ok {
+						if set, ok := sets[info.ObjectOf(sid)]; ok {
+							if k, ok := c.tokConstOf(info, ix.Index); ok {
+								if v, ok := constOfExpr(info, x.Rhs[0]); ok && v.String() == "true" {
+									set[k] = true
+								}
+							}
+						}
+					}
+					return true
+				}
 				id, ok := x.Lhs[0].(*ast.Ident)
 				if !ok {
 					return true
